@@ -63,6 +63,8 @@ def query(db, q):
     try:
         if k == "GetUnits":
             r = list(db.GetUnits(q[1]))
+        elif k == "GetUnitNames":
+            r = list(db.GetUnitNames(q[1]))
         elif k == "GetUnitsAll":
             r = sorted(db.GetUnits())
         elif k == "GetQuantityTypes":
@@ -316,11 +318,12 @@ def seq_strategy(base_kind, max_len):
         x = st.sampled_from([0.0, 1.0, 5.0, 11.0, -1.0])
         queries = st.one_of(
             st.tuples(st.sampled_from(["GetUnits", "GetBaseUnit"]), t),
+            st.tuples(st.sampled_from(["GetUnits", "GetBaseUnit", "GetUnitNames"]), st.one_of(t, c)),
             st.tuples(st.sampled_from(["GetValidUnits", "GetDefaultUnit", "GetDefaultValue", "GetCategoryInfo", "IsValidCategory", "ScalarCategoryOnly"]), c),
             st.tuples(st.sampled_from(["GetDefaultCategory", "GetQuantityType", "ObtainQuantityUnitOnly", "ScalarUnitOnly"]), u),
             st.tuples(st.sampled_from(["CheckCategoryUnit", "FindUnitCase", "ObtainQuantity", "Scalar", "ScalarGetValidUnits", "ArrayGetValidUnits"]), c, u),
             st.tuples(st.sampled_from(["CheckCategoryUnit", "ObtainQuantity", "Scalar", "ScalarGetValidUnits"]), c, u),
-            st.tuples(st.sampled_from(["CheckQuantityTypeUnit", "GetInfo"]), t, u),
+            st.tuples(st.sampled_from(["CheckQuantityTypeUnit", "GetInfo"]), st.one_of(t, c), u),
             st.tuples(st.sampled_from(["Convert", "ConvertList"]), st.one_of(t, c), u, u),
             st.tuples(st.sampled_from(["GetValue", "Add", "Multiply", "CreateCopy"]), c, u, u),
             st.tuples(st.sampled_from(["IsValid", "CheckValueForCategory"]), c, u, x),
@@ -368,6 +371,7 @@ def seq_strategy(base_kind, max_len):
             noise1 = draw(st.lists(op, max_size=3))
             noise2 = draw(st.lists(op, max_size=3))
             pre = [["reg", copy.deepcopy(r)] for r in prefix_pool]
+            ask += [["query", [draw(st.sampled_from(["GetUnits", "GetUnitNames", "GetValidUnits"])), draw(st.sampled_from([c0, "L"]))]]]
             again = copy.deepcopy(ask) + [["query", ["ScalarCategoryOnly", c0]], ["query", ["GetValidUnits", c0]], ["query", ["IsValid", c0, "m", 5.0]]]
             return pre + [["query", ["ScalarCategoryOnly", c0]], ["query", ["IsValid", c0, "m", 5.0]]] + ask + noise1 + [["reg", change]] + noise2 + again
         pre = []
